@@ -50,6 +50,7 @@ const (
 	GQuietNative      = "g:quiet_native"
 	GRedelThenExit    = "g:redelegate_then_exit"
 	GExportAtBoundary = "g:export_at_block_boundary"
+	GMultiRedelSlash  = "g:several_delegators_redelegate_then_slash"
 )
 
 const (
@@ -588,6 +589,35 @@ func (g *Gen) Step() {
 				p := new(big.Int).Quo(s.Vals[d.V].Tokens.BigInt(), big.NewInt(1_000_000)).Int64()
 				x.Apply(Op{K: KSlash, V: d.V, Frac: g.frac(), Power: p, Age: int64(g.intn("age", 2))})
 			}
+		}
+	case GMultiRedelSlash:
+		// several delegators move stake of one asset from validator a to validator b while the
+		// source can still be slashed, then the source is slashed
+		dn := g.anyDenom("denom")
+		a := g.intn("a", nv)
+		b := (a + 1 + g.intn("b", nv-1)) % nv
+		k := 2 + g.intn("k", 3)
+		for d := 0; d < k && d < NumDels; d++ {
+			cur := x.Post()
+			if _, ok := cur.FindDel(d, a, dn); !ok {
+				x.Apply(Op{K: KDelegate, D: d, V: a, Denom: dn, Amt: g.freshAmount("amt")})
+			}
+			cur = x.Post()
+			if pos, ok := cur.FindDel(d, a, dn); ok {
+				bal := cur.Reported(pos)
+				if bal.Sign() > 0 {
+					x.Apply(Op{K: KRedelegate, D: d, V: a, W: b, Denom: dn, Amt: g.amount("ramt", bal, false)})
+				}
+			}
+			if g.pct("block-between", 20) {
+				x.Apply(Op{K: KBlock, Dt: g.dt(), Fees: g.fees()})
+			}
+		}
+		if g.pct("hook", 60) {
+			x.Apply(Op{K: KSlashHook, V: a, Frac: g.frac()})
+		} else {
+			p := new(big.Int).Quo(x.Post().Vals[a].Tokens.BigInt(), big.NewInt(1_000_000)).Int64()
+			x.Apply(Op{K: KSlash, V: a, Frac: g.frac(), Power: p, Age: int64(g.intn("age", 2))})
 		}
 	case GExportAtBoundary:
 		if x.Twin != nil {
